@@ -74,6 +74,12 @@ def stages(tier, rng, only=None):
                      aux=aux))
     out.append(ac.stage("sparse_cycles", PID, lambda: _runs([ac.cycle_plus_sparse(rng) for _ in range(nq)], 1, 6),
                         _nt_run))
+    # doubly-unranked pairs dearer to tie than to order (T[5] > B[5]) and the other way round
+    t5 = [ac.P_EXT, ([0, 4, 2, 0, 2, 1], [2, 2, 0, 1, 1, 3], 4), ac.P_UNI1, ([0, 4, 4, 0, 4, 0], [4, 4, 0, 4, 4, 2], 4)]
+    out.append(ac.stage("sparse_cycles_t5", PID, lambda: ac.cases(
+        [ac.cycle_plus_sparse(rng) for _ in range(nq)], PARCONS, t5, flags=(1,), all_schemes=True, namings=["ints", "letters"])
+        + ac.cases([ac.cycle_plus_sparse(rng) for _ in range(nq // 2)], PARCONS, t5, flags=(1,), all_schemes=True,
+                   namings=["ints", "letters"], env="standin"), _nt_run))
     if tier == "thorough":
         out.append(Stage("partitions3x3", "Trace_Part", partrun.run_partitions,
                          lambda: _cases(grids.datasets(3, 3), SCHEMES, False), _nt_part, partrun.init, aux=aux))
